@@ -181,7 +181,7 @@ pub fn depth_for(t: usize, tier_deep: bool) -> usize {
 }
 
 /// Expected driver fingerprint of the pinned template, with names replaced by roles (see extract.rs).
-pub const DRIVER_FINGERPRINT: &str = "fn parse < S > ( src : S ) - > Result < START , Option < TERMINALS > > where S : IntoIterator < Item = TERMINALS > { let mut quasiterminals = src . into_iter ( ) . map ( QUASI : : Terminal ) . chain ( std : : iter : : once ( QUASI : : EOF ) ) . peekable ( ) ; let mut states = vec ! [ STATE : : STATEVARIANT ] ; let mut nodes : Vec < NODE > = vec ! [ ] ; loop { let top_state = * states . last ( ) . unwrap ( ) ; let next_quasiterminal_kind = QUASIKIND : : from_quasiterminal ( quasiterminals . peek ( ) . unwrap ( ) ) ; match get_action ( top_state , next_quasiterminal_kind ) { ACTION : : Shift ( new_state ) = > { states . push ( new_state ) ; nodes . push ( NODE : : from_terminal ( quasiterminals . next ( ) . unwrap ( ) . try_into_terminal ( ) . unwrap ( ) ) ) ; } ACTION : : Reduce ( rule_kind ) = > { let ( new_node , new_node_kind ) = pop_and_reduce ( & mut states , & mut nodes , rule_kind ) ; nodes . push ( new_node ) ; let temp_top_state = * states . last ( ) . unwrap ( ) ; let Some ( new_state ) = get_goto ( temp_top_state , new_node_kind ) else { return Err ( quasiterminals . next ( ) . unwrap ( ) . try_into_terminal ( ) . ok ( ) ) ; } ; states . push ( new_state ) ; } ACTION : : Accept = > { return Ok ( START : : try_from ( nodes . pop ( ) . unwrap ( ) ) . ok ( ) . unwrap ( ) ) ; } ACTION : : Err = > { return Err ( quasiterminals . next ( ) . unwrap ( ) . try_into_terminal ( ) . ok ( ) ) ; } } } } ";
+pub const DRIVER_FINGERPRINT: &str = "fn parse < SRC > ( src : SRC ) - > Result < START , Option < TERMINALS > > where SRC : IntoIterator < Item = TERMINALS > { let mut quasiterminals = src . into_iter ( ) . map ( QUASI : : Terminal ) . chain ( std : : iter : : once ( QUASI : : EOF ) ) . peekable ( ) ; let mut states = vec ! [ STATE : : STATEVARIANT ] ; let mut nodes : Vec < NODE > = vec ! [ ] ; loop { let top_state = * states . last ( ) . unwrap ( ) ; let next_quasiterminal_kind = QUASIKIND : : from_quasiterminal ( quasiterminals . peek ( ) . unwrap ( ) ) ; match get_action ( top_state , next_quasiterminal_kind ) { ACTION : : Shift ( new_state ) = > { states . push ( new_state ) ; nodes . push ( NODE : : from_terminal ( quasiterminals . next ( ) . unwrap ( ) . try_into_terminal ( ) . unwrap ( ) ) ) ; } ACTION : : Reduce ( rule_kind ) = > { let ( new_node , new_node_kind ) = pop_and_reduce ( & mut states , & mut nodes , rule_kind ) ; nodes . push ( new_node ) ; let temp_top_state = * states . last ( ) . unwrap ( ) ; let Some ( new_state ) = get_goto ( temp_top_state , new_node_kind ) else { return Err ( quasiterminals . next ( ) . unwrap ( ) . try_into_terminal ( ) . ok ( ) ) ; } ; states . push ( new_state ) ; } ACTION : : Accept = > { return Ok ( START : : try_from ( nodes . pop ( ) . unwrap ( ) ) . ok ( ) . unwrap ( ) ) ; } ACTION : : Err = > { return Err ( quasiterminals . next ( ) . unwrap ( ) . try_into_terminal ( ) . ok ( ) ) ; } } } } ";
 
 struct Explorer<'a> {
     case: &'a Case,
